@@ -269,8 +269,11 @@ def _norm_block(stmts: List[ast.stmt]) -> List[ast.stmt]:
             if isinstance(s, ast.Assign) and len(s.targets) == 1 and isinstance(s.targets[0], ast.Tuple) and isinstance(s.value, ast.Tuple) \
                     and len(s.targets[0].elts) == len(s.value.elts) and all(isinstance(t, ast.Name) for t in s.targets[0].elts):
                 tn = {t.id for t in s.targets[0].elts}
-                if len(tn) == len(s.targets[0].elts) and not any(isinstance(x, ast.Name) and x.id in tn for v_ in s.value.elts for x in ast.walk(v_)) \
-                        and not (tn & _CAPTURED[-1]):
+                tl = [t.id for t in s.targets[0].elts]
+                # sequential form a = e1; b = e2; ...: e_i is evaluated after a_0..a_{i-1} were stored, so no EARLIER target may occur in e_i (a target
+                # may occur in its own value: `s = s[:, Nb:]`)
+                seq_ok = not any(isinstance(x, ast.Name) and x.id in tl[:k_] for k_, v_ in enumerate(s.value.elts) for x in ast.walk(v_))
+                if len(tn) == len(s.targets[0].elts) and seq_ok and not (tn & _CAPTURED[-1]):
                     # a, b = e1, e2 where the values do not read a or b and no closure of the function reads them (a call among the values cannot
                     # observe whether `a` was stored before or after it ran): the same as a = e1; b = e2
                     for t, v_ in zip(s.targets[0].elts, s.value.elts):
@@ -1070,8 +1073,12 @@ def _coalesce_helper_locals(f) -> bool:
         if len(copies) != 1 or copies[0] <= last_store:
             continue
         c = copies[0]
-        if any(i < c for i, n in xs_in) or any(isinstance(n.ctx, (ast.Store, ast.Del)) and i != c for i, n in xs_in):
+        if any(i < c for i, n in xs_in):
             continue
+        x_restored_later = any(isinstance(n.ctx, (ast.Store, ast.Del)) and i != c for i, n in xs_in)
+        y_after_copy = any(i > c for i in iy)
+        if x_restored_later and y_after_copy:
+            continue               # x is re-bound later while y is still read: they are not one variable
         for n in occ_y:
             n.id = x
         b.pop(c)
